@@ -14,3 +14,15 @@ func (k Keeper) CheckSameAssetPosition(ctx sdk.Context, msg *types.MsgOpen) *typ
 	}
 	return nil
 }
+
+// CheckSameAssetPositionInPool returns the creator's position of the same kind in the pool the message opens in: a position
+// of the same kind in another pool must not be consolidated with, as the new position borrows from msg.PoolId.
+func (k Keeper) CheckSameAssetPositionInPool(ctx sdk.Context, msg *types.MsgOpen) *types.MTP {
+	mtps := k.GetAllMTPsForAddress(ctx, sdk.MustAccAddressFromBech32(msg.Creator))
+	for _, mtp := range mtps {
+		if mtp.AmmPoolId == msg.PoolId && mtp.Position == msg.Position && mtp.CollateralAsset == msg.Collateral.Denom && mtp.TradingAsset == msg.TradingAsset {
+			return mtp
+		}
+	}
+	return nil
+}
